@@ -11,8 +11,29 @@
 mod native {
     use std::cell::RefCell;
     thread_local! { pub static VALS: RefCell<(Vec<Vec<u8>>, usize)> = RefCell::new((Vec::new(), 0)); }
+    thread_local! { pub static RANDOM: std::cell::Cell<u64> = std::cell::Cell::new(0); }
+    pub fn rnd() -> u64 {
+        RANDOM.with(|r| {
+            let mut x = r.get();
+            x ^= x << 13;
+            x ^= x >> 7;
+            x ^= x << 17;
+            r.set(x);
+            x
+        })
+    }
     pub struct AssumeViolated(pub &'static str);
     pub fn pop(n: usize) -> Vec<u8> {
+        if RANDOM.with(|r| r.get()) != 0 {
+            // smoke-test mode (not evidence): small values are far more interesting than uniform ones
+            let mode = rnd() % 4;
+            let mut out = Vec::new();
+            for i in 0..n {
+                let b = (rnd() >> 24) as u8;
+                out.push(match mode { 0 => if i == 0 { b % 8 } else { 0 }, 1 => b, 2 => if i == 0 { b } else { 0 }, _ => if b % 2 == 0 { 0 } else { 0xff } });
+            }
+            return out;
+        }
         VALS.with(|v| {
             let mut v = v.borrow_mut();
             let i = v.1;
@@ -87,6 +108,10 @@ pub fn any<T: Nd>() -> T {
 #[inline(always)]
 pub fn below(n: usize) -> usize {
     let x: usize = any();
+    #[cfg(not(kani))]
+    if native::RANDOM.with(|r| r.get()) != 0 {
+        return x % n;
+    }
     assume(x < n);
     x
 }
@@ -136,6 +161,30 @@ pub fn replay_main(tables: &[&[(&str, fn())]]) -> ! {
             std::process::exit(3);
         }
     };
+    if args[2] == "--random" {
+        // smoke test of the harness oracle on random inputs: `replay <harness> --random <runs> [seed]`
+        let runs: u64 = args.get(3).and_then(|x| x.parse().ok()).unwrap_or(1000);
+        let seed: u64 = args.get(4).and_then(|x| x.parse().ok()).unwrap_or(0x9e3779b97f4a7c15);
+        std::panic::set_hook(Box::new(|_| {}));
+        let (mut ok, mut skipped, mut failed) = (0u64, 0u64, 0u64);
+        let mut first: Option<String> = None;
+        for i in 0..runs {
+            native::RANDOM.with(|r| r.set(seed.wrapping_add(i.wrapping_mul(0x2545F4914F6CDD1D)) | 1));
+            match std::panic::catch_unwind(f) {
+                Ok(()) => ok += 1,
+                Err(e) => {
+                    if e.downcast_ref::<AssumeViolated>().is_some() { skipped += 1; } else {
+                        failed += 1;
+                        if first.is_none() {
+                            first = Some(e.downcast_ref::<&str>().map(|s| s.to_string()).or_else(|| e.downcast_ref::<String>().cloned()).unwrap_or_default());
+                        }
+                    }
+                }
+            }
+        }
+        println!("RANDOM: ok={} assumption-skipped={} failed={} first_failure={:?}", ok, skipped, failed, first);
+        std::process::exit(if failed > 0 { 1 } else { 0 });
+    }
     let txt = std::fs::read_to_string(&args[2]).expect("vals file");
     let mut vals = Vec::new();
     for l in txt.lines() {
